@@ -84,6 +84,7 @@ impl Tag for EFIBootServicesNotExitedTag {
 impl<'a> BootInformation<'a> {
 //@extract multiboot2/src/boot_information.rs :: impl<'a> BootInformation<'a> :: fn command_line_tag
 //@  ret r
+//@  optional
 //@  spec:
 //@    requires self.wf(), panics_allowed(),
 //@    ensures mb_getter_post::<CommandLineTag>(self, 1, r),   // specification: type = 1
@@ -91,6 +92,7 @@ impl<'a> BootInformation<'a> {
 
 //@extract multiboot2/src/boot_information.rs :: impl<'a> BootInformation<'a> :: fn boot_loader_name_tag
 //@  ret r
+//@  optional
 //@  spec:
 //@    requires self.wf(), panics_allowed(),
 //@    ensures mb_getter_post::<BootLoaderNameTag>(self, 2, r),   // specification: type = 2
@@ -98,6 +100,7 @@ impl<'a> BootInformation<'a> {
 
 //@extract multiboot2/src/boot_information.rs :: impl<'a> BootInformation<'a> :: fn memory_map_tag
 //@  ret r
+//@  optional
 //@  spec:
 //@    requires self.wf(), panics_allowed(),
 //@    ensures mb_getter_post::<MemoryMapTag>(self, 6, r),   // specification: type = 6
@@ -105,6 +108,7 @@ impl<'a> BootInformation<'a> {
 
 //@extract multiboot2/src/boot_information.rs :: impl<'a> BootInformation<'a> :: fn elf_sections_tag
 //@  ret r
+//@  optional
 //@  spec:
 //@    requires self.wf(), panics_allowed(),
 //@    ensures mb_getter_post::<ElfSectionsTag>(self, 9, r),   // specification: type = 9
@@ -112,6 +116,7 @@ impl<'a> BootInformation<'a> {
 
 //@extract multiboot2/src/boot_information.rs :: impl<'a> BootInformation<'a> :: fn smbios_tag
 //@  ret r
+//@  optional
 //@  spec:
 //@    requires self.wf(), panics_allowed(),
 //@    ensures mb_getter_post::<SmbiosTag>(self, 13, r),   // specification: type = 13
@@ -119,6 +124,7 @@ impl<'a> BootInformation<'a> {
 
 //@extract multiboot2/src/boot_information.rs :: impl<'a> BootInformation<'a> :: fn network_tag
 //@  ret r
+//@  optional
 //@  spec:
 //@    requires self.wf(), panics_allowed(),
 //@    ensures mb_getter_post::<NetworkTag>(self, 16, r),   // specification: type = 16
@@ -127,6 +133,7 @@ impl<'a> BootInformation<'a> {
 
 //@extract multiboot2/src/boot_information.rs :: impl<'a> BootInformation<'a> :: fn efi_bs_not_exited_tag
 //@  ret r
+//@  optional
 //@  spec:
 //@    requires self.wf(), panics_allowed(),
 //@    ensures mb_getter_post::<EFIBootServicesNotExitedTag>(self, 18, r),   // specification: type = 18
@@ -134,6 +141,7 @@ impl<'a> BootInformation<'a> {
 
 //@extract multiboot2/src/boot_information.rs :: impl<'a> BootInformation<'a> :: fn efi_memory_map_tag
 //@  ret r
+//@  optional
 //@  rules Rlog
 //@  closure 0: || -> (c: Option<&EFIMemoryMapTag>) requires self.wf(), panics_allowed() ensures mb_getter_post::<EFIMemoryMapTag>(self, 17, c)
 //@  closure 1: |_tag: &EFIBootServicesNotExitedTag| -> (c: Option<&EFIMemoryMapTag>) ensures c is None
@@ -149,6 +157,7 @@ impl<'a> BootInformation<'a> {
 
 //@extract multiboot2/src/boot_information.rs :: impl<'a> BootInformation<'a> :: fn module_tags
 //@  ret r
+//@  optional
 //@  sigrewrite /-> \(r: ModuleIter\)/ => /-> (r: ModuleIter<'a>)/
 //@  spec:
 //@    requires self.wf(),
